@@ -69,9 +69,52 @@ func decodeCheck[T any](c *Ctx, cs *h.Case, name string, d []byte, read func([]b
 
 func eqc[T comparable](a, b T) bool { return a == b }
 
+// c12Alias: the target holds what an EARLIER DecodeString stored through the same scratch buffer
+// (so a zero-copy result would alias the scratch); the call under observation then reuses that
+// scratch. On error and on null the target must still read as before; on success into a second
+// target the first one must (seeded change C12r5-m1).
+func c12Alias(c *Ctx, cs *h.Case, d []byte, buf *[]byte) {
+	if len(d) > 4096 || bytes.IndexByte(d, '"') < 0 {
+		return
+	}
+	c.Guarded(cs, "DecodeString (target stored earlier through the same scratch)", func() {
+		prime := make([]byte, 0, len(d)+16)
+		prime = append(prime, '"', 'p', '\\', 't')
+		for i := 0; i < len(d); i++ {
+			prime = append(prime, byte('a'+i%26))
+		}
+		prime = append(prime, '"')
+		if c.Rec.R.Cases%7 == 0 {
+			*buf = nil // the 'var scratch []byte' start, every so often
+		}
+		var s1, s2 string
+		if _, err := rjson.DecodeString(prime, &s1, buf); err != nil {
+			c.Rec.Inconsistent(cs, "priming DecodeString failed", "ok", err.Error())
+			return
+		}
+		want := strings.Clone(s1)
+		_, _, rerr := rjson.ReadString(d, nil)
+		c.Rec.Evals(2)
+		if rerr == nil {
+			c.Rec.C("alias_history_success_into_second_target")
+			rjson.DecodeString(d, &s2, buf)
+			if s1 != want {
+				c.Rec.Violate(cs, "an earlier DecodeString target changed when the scratch buffer was reused", "DecodeString", h.Quote([]byte(want)), h.Quote([]byte(s1)))
+			}
+			return
+		}
+		c.Rec.C("alias_history_error_or_null_on_same_target")
+		rjson.DecodeString(d, &s1, buf)
+		if s1 != want {
+			c.Rec.Violate(cs, "DecodeString on error/null: target (stored earlier through the same scratch) modified", "DecodeString", h.Quote([]byte(want)), h.Quote([]byte(s1)))
+		}
+	})
+}
+
 // C12: Decode* store only on success; null leaves the target alone.
 func RunC12(c *Ctx) {
 	scratch := dirty(16, 3)
+	var aliasBuf []byte
 	check := func(cs *h.Case) {
 		d := cs.Input
 		decodeCheck(c, cs, "Bool", d, rjson.ReadBool, rjson.DecodeBool, [2]bool{true, false}, eqc[bool])
@@ -90,6 +133,7 @@ func RunC12(c *Ctx) {
 			func(b []byte) (string, int, error) { return rjson.ReadString(b, nil) },
 			func(b []byte, v *string) (int, error) { return rjson.DecodeString(b, v, &scratch) },
 			[2]string{"sentinel-two", "x"}, eqc[string], rawStringTargets)
+		c12Alias(c, cs, d, &aliasBuf)
 		if c.Rec.WantSample() && c.Rec.R.Cases%5003 == 1 {
 			t := int64(-5)
 			p, err := rjson.DecodeInt64(d, &t)
